@@ -38,7 +38,7 @@ CHECKS.update({
     ),
     "C03": dict(
         text="Lean 4 theorems on the materialisation model: which transformation each mode requests per operand (static range / dynamic range / weight only), non-float operands always receive NO_QUANTIZE (nonfloat_never_quantized), tensor type produced per bit width; combined with the wiring theorems of C01/C02. The materialisation and the whole pipeline are compared bit-exactly with the code; an independent per-operand dtype oracle runs on every generated case.",
-        note="the composed statement 'operand dtype in the output graph = table(mode)' is established per case by oracle + correspondence, not yet as one Lean theorem",
+        note="per-step typing is proved (QProps/C03b: after QUANTIZE_TENSOR / ADD_QUANTIZE / ADD_DEQUANTIZE the retyped or new tensor has exactly the type and parameters of the request, exactly one QUANTIZE/DEQUANTIZE op is inserted, exactly the listed consumers are rewired, everything else is unchanged); the composition over all steps into 'operand dtype in the output graph = table(mode)' is established per case by oracle + correspondence",
         design="§6 C03",
     ),
     "C04": dict(
@@ -73,7 +73,7 @@ CHECKS.update({
     ),
     "C15": dict(
         text="Lean 4 theorems on the buffer-sharing decision: compatible requests read a shared constant through the same source class and, when quantizing, with ==-equal parameters; writing the same packed data twice is idempotent. Executed on generated tied-constant models (within/across subgraphs, one tensor with 2..3 consumers) x equal/different/no quantization: every buffer decoded against every referent, rejection allowed.",
-        note="the end-to-end statement over the output graph is checked per case by the oracle",
+        note="soundness of the whole sharing check is proved (QProps/C15b: if the check passes, all operand occurrences of a constant buffer carry pairwise compatible requests, a single-occurrence constant has mutually compatible consumers incl. the graph output, and a constant no operator reads never shares a rewritten buffer); that the graph stage then writes the buffer once per parameter object is shared_write_idempotent; the end-to-end statement over the output bytes is checked per case by the oracle",
         design="§6 C15",
     ),
     "C19": dict(
